@@ -60,7 +60,7 @@ def arith(ctx, op, a, b):
         return power(ctx, a, b)
     if op == '/':
         q = zreal(a) / zreal(b)
-        if not _c(b) and ctx is not None and hasattr(ctx, 'axiom'):
+        if not _c(b) and ctx is not None and hasattr(ctx, 'axiom') and getattr(ctx, 'div_bounds', False):
             # instantiated theorem of real arithmetic (helps the nonlinear solvers, adds no assumption):
             # a >= 0 and b >= 1  =>  0 <= a / b <= a
             key = ('div-bound', q.sexpr() if hasattr(q, 'sexpr') else str(q))
